@@ -15,6 +15,7 @@ import os, sys, threading
 os.environ["WORLD_TRACE"] = "1"
 sys.path.insert(0, os.path.dirname(os.path.abspath(__file__)))
 import world_harness as wh
+wh.USE_WORKER = False      # this harness runs the tick in a thread of its own, parked at the boundaries
 from transceiver import Transceiver
 from burst_fwd import BurstForwarder
 from fake_trx import FakeTRX
